@@ -541,6 +541,9 @@ func (d *Decoder) decodeSymbolTo(v reflect.Value) error {
 	switch v.Kind() {
 	case reflect.String:
 		if val != nil {
+			if val.Text == nil {
+				return fmt.Errorf("ion: cannot decode a symbol with unknown text ($%v) to a string", val.LocalSID)
+			}
 			v.SetString(*val.Text)
 		}
 		return nil
